@@ -30,6 +30,9 @@ func runHist(line string, out *bufio.Writer) {
 	objs, ids := h.Objects()
 	tree := rtree.NewTree(h.Min, h.Max)
 	for _, op := range h.Ops {
+		if op.Qry {
+			continue
+		}
 		delres := "-"
 		msg := vproto.Safe(func() {
 			if op.Del {
